@@ -14,7 +14,8 @@ Finding: `emitted_rq_wf_counterexample` - the document the real compiler emits f
 (and the one for `sort b | aggregate .. | derive {r = row_number this}`) fails the scope clause: a `sort` is carried past
 `select` / `aggregate` into the `sort` of later Takes and windows (semantic/resolver/flatten.rs).  `EmittedWf` below is therefore
 proved for the model only, whose guard (c) excludes exactly this; the monitor of tools/props/c16.py checks every real RQ
-against `wfRq` and lists the two classes as known findings, and checks `wfRqLax` (stale *sort* columns tolerated) on all of them.
+against `wfRq` and lists the classes as known findings (a third one, sort-leaks-into-subpipeline, is a `sort` copied into the
+pipeline of a join/append argument), and reports `wfRqLax` (stale *sort* columns tolerated) next to it.
 -/
 import PrqlModel.Lemmas.Rq
 import PrqlModel.Lemmas.Lower
@@ -265,11 +266,30 @@ def staleSortAggregate : RelationalQuery :=
     .compute { id := 4, expr := .operator (cs! "std.row_number") .nil, window := some { sort := [{ column := 1 }] } },
     .select [3, 4]] [.single (some ['s']), .single (some ['r'])]
 
-/-- the scope clause fails on documents the real compiler emits (known findings stale-sort-after-select and
-stale-sort-after-aggregate); nothing else is wrong with them (`wfRqLax`) -/
+def tDecl3 : TableDecl := { id := 0, relation := { kind := .externRef [['t']], columns := [cA, cB, .single (some ['c'])] } }
+
+/-- the RQ prqlc emits for `from t | sort {b} | append (from t | take 2..3)` over a declared `t <[{a, b, c}]>`:
+the Take of the *argument* pipeline is sorted by column 1 of the *enclosing* pipeline -/
+def cC : RelCol := .single (some ['c'])
+def leakInner : List Transform := [
+  .from_ { source := 0, columns := [(cA, 3), (cB, 4), (cC, 5)], name := some ['t'] },
+  .take { rangeStart := some .literal, rangeEnd := some .literal, sort := [{ column := 1 }] },
+  .select [3, 4, 5]]
+def leakMain : List Transform := [
+  .from_ { source := 0, columns := [(cA, 0), (cB, 1), (cC, 2)], name := some ['t'] },
+  .sort [{ column := 1 }],
+  .append { source := 1, columns := [(cA, 6), (cB, 7), (cC, 8)], preferCte := false },
+  .select [0, 1, 2]]
+def leakedSort : RelationalQuery :=
+  mk [tDecl3, { id := 1, relation := { kind := .pipeline leakInner, columns := [cA, cB, cC] } }] leakMain [cA, cB, cC]
+
+/-- the scope clause fails on documents the real compiler emits.  Known findings stale-sort-after-select and
+stale-sort-after-aggregate: nothing else is wrong with the document (`wfRqLax`).  Known finding sort-leaks-into-subpipeline:
+a table uses a column id that only the enclosing pipeline defines (also `wfRqLax` fails: the document is not closed). -/
 theorem emitted_rq_wf_counterexample :
     wfRq staleSortSelect = .error (.notVisible 1) ∧ wfRqLax staleSortSelect = .ok () ∧
-    wfRq staleSortAggregate = .error (.notVisible 1) ∧ wfRqLax staleSortAggregate = .ok () := by decide
+    wfRq staleSortAggregate = .error (.notVisible 1) ∧ wfRqLax staleSortAggregate = .ok () ∧
+    wfRq leakedSort = .error (.notVisible 1) ∧ wfRqLax leakedSort = .error (.notVisible 1) := by decide
 
 /-! ## T2: what the back end may rely on -/
 
